@@ -134,6 +134,12 @@ for k in ('C12', 'C14', 'C16', 'C17', 'C19'):
     claimed[k]['text'] += " The invoked methods are also re-checked with symbolic sizes (accept what the specification accepts), and every failing tensor operation is shown to return an untyped nil (the components' nil checks rely on it)."
 for k in ('C11', 'C13', 'C15', 'C16'):
     claimed[k]['text'] += " The C02 obligations of the differentiable methods the package invokes, the precondition / shape / element agreement of the methods THOSE rules invoke, the walk templates and C08.reset are re-run as premises."
+# round-6 additions
+claimed['C10']['text'] += " S8 (no mutable package state) is run here as well; S3.result-fresh also covers the exported constructors of the tensor package."
+claimed['C09']['text'] += " The walk templates (incl. zero-gradient branches) are interpreted here too: BackPropagate on well-formed graphs returns without panic or error."
+claimed['C20']['text'] += " S16 also reports a lock taken while a lock of the same kind may be held (no global order: swapped operands deadlock)."
+for k in ('C03', 'C04', 'C05'):
+    claimed[k]['text'] += " Premise: the store observer (C10.mutation) over the labelled instances of every other public method - operands stay intact between operations."
 reasons_na = {
  'C11': "compositional over C01, C02, C07, C08, C10, C16, C17 (each claimed separately); the end-to-end trajectory clause is not yet decided by its own check - build in progress",
  'C13': "compositional over C12, C01, C02 (each claimed separately); an end-to-end check of the loss gradients through the real BackPropagate is being built",
